@@ -7,7 +7,10 @@
    VerifyTOC / readAndCache, on-demand chunk checks, cache commits, evictions, layer-level Verify / SkipVerify):
    "for all os" = for all histories, all interleavings of prefetch with the verification call, all orders of
    verify / skip-verify requests, all bytes the registry / mirror / blob cache may supply (arguments of the ops).
-   [good H T k b] = the hash of [b] equals a digest recorded in [T] for the chunk with cache key [k]. *)
+   [good H T k b] = the hash of [b] equals a digest recorded in [T] for the chunk with cache key [k].
+   [goodcat H T f b] = [b] is a concatenation of whole chunks of file [f], each hashing to a digest recorded in [T]
+   for its key (one chunk for an ordinary cache entry; all chunks of the file for the whole-file entry that the
+   passthrough merge writes - for a single-chunk file the two have the same cache key). *)
 From Coq Require Import List NArith ZArith Bool.
 From SV Require Import Model.Verify Proofs.Verify.
 Import ListNotations.
@@ -36,16 +39,41 @@ Print Assumptions C01_mount_pins_toc.
    cache or held by a not yet committed cache writer hashes to a digest recorded in the TOC for its key. *)
 Theorem C01_cache_ok :
   forall H T D os k b, let s := exec H (init T D) os in
-    s_tainted s = false -> s_lasterr s = false -> In (k, b) (s_cache s ++ s_pend s) -> good H T k b = true.
+    s_tainted s = false -> s_lasterr s = false -> In (k, b) (s_cache s ++ s_pend s) -> goodcat H T (kfile k) b.
 Proof. exact cache_ok. Qed.
 Print Assumptions C01_cache_ok.
 
 (* In verify mode the recorded-failure flag is necessarily clear, so the invariant needs no second hypothesis. *)
 Theorem C01_verified_cache_ok :
   forall H T D os k b, let s := exec H (init T D) os in
-    s_verify s = true -> s_tainted s = false -> In (k, b) (s_cache s ++ s_pend s) -> good H T k b = true.
+    s_verify s = true -> s_tainted s = false -> In (k, b) (s_cache s ++ s_pend s) -> goodcat H T (kfile k) b.
 Proof. exact verified_cache_ok. Qed.
 Print Assumptions C01_verified_cache_ok.
+
+(* Passthrough (GetPassthroughFd -> prefetchEntireFileSequential / prefetchEntireFile + processBatchChunks), atomic level:
+   whatever a merge writer holds at any moment of any interleaving (cached chunks appended unverified, fetched chunks
+   appended after verifyOneChunk) is a concatenation of good chunks of its file, under the same two conditions. *)
+Theorem C01_merge_ok :
+  forall H T D os f b, let s := exec H (init T D) os in
+    s_tainted s = false -> s_lasterr s = false -> In (f, b) (s_merge s) -> goodcat H T f b.
+Proof. exact merge_ok. Qed.
+Print Assumptions C01_merge_ok.
+
+(* Passthrough, API level: on a verifying untainted reader, the whole-file cache entry whose descriptor
+   GetPassthroughFd hands to the kernel (any merge buffer size, either code path, any bytes delivered for the chunks
+   it has to fetch, whole-file entry already cached or not) consists only of chunks of that file that hash to their
+   recorded digests; and whether the call succeeds or fails (a chunk failing verification aborts the merge writer),
+   the state after it is again reachable, verifying and untainted - so by C01_verified_cache_ok no entry that is
+   not such a concatenation exists afterwards. *)
+Theorem C01_passthrough_verified :
+  forall H T D os f buf fts, let s := exec H (init T D) os in
+    s_verify s = true -> s_tainted s = false ->
+    let r := pass_fd H s f buf fts in
+    (forall out, snd r = ROk out -> goodcat H T f out)
+    /\ s_verify (fst r) = true /\ s_tainted (fst r) = false
+    /\ (exists os', fst r = exec H (init T D) (os ++ os')).
+Proof. exact passthrough_verified. Qed.
+Print Assumptions C01_passthrough_verified.
 
 (* FULL STATEMENT (every order of verify / skip-verify requests reaching one cached layer):
      forall H T D os f off len fs out, let s := exec H (init T D) os in
@@ -111,7 +139,7 @@ Print Assumptions C01_handshake_frozen.
 Theorem C01_handshake :
   forall H T D os k b os' d o, (o = VerifyTOC d \/ o = LVerify d) ->
     let s := exec H (init T D) os in
-    s_tainted s = false -> In (k, b) (s_cache s ++ s_pend s) -> good H T k b = false ->
+    s_tainted s = false -> In (k, b) (s_cache s ++ s_pend s) -> ~ goodcat H T (kfile k) b ->
     snd (step H (exec H s os') o) = OErr.
 Proof. exact handshake. Qed.
 Print Assumptions C01_handshake.
@@ -144,8 +172,18 @@ Proof. vm_compute. repeat split. Qed.
 Example C01_nonvacuous_handshake :
   let s := exec wH (init wT 5%N) [PfCheck false 1%N 0 [9%N; 9%N]; Decide; Commit 0] in
   s_tainted s = false /\ In ((1%N, 0%Z, 2%Z), [9%N; 9%N]) (s_cache s ++ s_pend s) /\
-  good wH wT (1%N, 0%Z, 2%Z) [9%N; 9%N] = false /\ snd (step wH s (VerifyTOC 5%N)) = OErr.
-Proof. vm_compute. repeat split. left. reflexivity. Qed.
+  ~ goodcat wH wT 1%N [9%N; 9%N] /\ snd (step wH s (VerifyTOC 5%N)) = OErr.
+Proof. split; [reflexivity|]. split; [left; reflexivity|]. split; [exact w_altered_not_goodcat|reflexivity]. Qed.
+
+(* Non-vacuity 4 (passthrough): verified reader, chunk fetched during the merge, whole-file entry handed out; a second
+   call is served by the entry; with altered bytes the call fails and the cache stays empty. *)
+Example C01_nonvacuous_passthrough :
+  let s := hexec wH (init wT 5%N) [HVerifyTOC 5%N] in
+  snd (hrun wH s [HPass 1%N 8%Z [(0%nat, mkFetch [] (MOk 2%Z [1%N; 2%N]))]; HPass 1%N 8%Z []]) = [HR (ROk [1%N; 2%N]); HR (ROk [1%N; 2%N])]
+  /\ snd (pass_fd wH s 1%N 8%Z [(0%nat, mkFetch [] (MOk 2%Z [9%N; 9%N]))]) = RErr
+  /\ s_cache (fst (pass_fd wH s 1%N 8%Z [(0%nat, mkFetch [] (MOk 2%Z [9%N; 9%N]))])) = []
+  /\ s_merge (fst (pass_fd wH s 1%N 8%Z [(0%nat, mkFetch [] (MOk 2%Z [9%N; 9%N]))])) = [].
+Proof. vm_compute. repeat split. Qed.
 
 (* Non-vacuity 3: the other order of the handshake - decision first, then the prefetch of altered bytes aborts and
    nothing becomes pending; verification succeeds. *)
